@@ -31,9 +31,14 @@ Proof. exact ApiProofs.get_unset_is_null. Qed.
 
 (* a variable given with SetVariable is what the script reads *)
 Theorem C20_script_reads_variable : forall o obj e name v,
-  scopes e = [] -> str_eqb name (trim_dollar name) = true ->
-  lookup o obj (env_set e name v) name = Ok v.
+  scopes e = [] ->
+  lookup o obj (env_set e (trim_dollar name) v) name = Ok v.
 Proof. exact ApiProofs.script_reads_variable. Qed.
+
+Theorem C20_script_reads_set_variable : forall o fuel obj e name v e1,
+  step o fuel e (OSetVar name v) = (RUnit, e1) ->
+  lookup o obj (eenv e1) name = Ok v.
+Proof. exact ApiProofs.script_reads_set_variable. Qed.
 
 (* a host function is called exactly once per call instruction, with the script's
    arguments in order; its result - or nothing, for void - is the call's value *)
